@@ -581,5 +581,38 @@ func replay(path string) {
 		}
 	}
 	json.Unmarshal(b, &rp)
-	fmt.Printf("replay %+v\n", rp.First.Replay)
+	r := rp.First.Replay
+	bad := false
+	if r.Part == "seq" {
+		// re-run the recorded operation history on a fresh logger against the model
+		l := har.NewLogger()
+		m := &model{}
+		for i, name := range r.History {
+			var o op
+			for _, cand := range alphabet([]string{"a", "b", "c"}) {
+				if cand.String() == name {
+					o = cand
+				}
+			}
+			want := m.apply(o, i+1)
+			got := applyImpl(l, o, i+1)
+			fmt.Printf("step %d %s: impl=%s model=%s\n", i+1, name, got, want)
+			if want != got {
+				bad = true
+			}
+		}
+	} else {
+		out := &shardOut{Counters: map[string]int64{}}
+		// explore only the recorded scenario; the recorded schedule is among its interleavings
+		concPart(out, []scenario{r.Scenario}, 0, 0, time.Now().Add(time.Minute))
+		for _, v := range out.Violations {
+			fmt.Println(v.Desc)
+			bad = true
+		}
+	}
+	if bad {
+		fmt.Printf("VIOLATION property=C17 replay=%s\n", path)
+		os.Exit(1)
+	}
+	fmt.Println("replay: no violation")
 }
